@@ -250,6 +250,51 @@ pub fn log_slice(from: usize) -> Vec<Ev> {
     with(|s| s.log[from.min(s.log.len())..].to_vec())
 }
 
+/// FNV-1a over every logged event including the bytes written (determinism self-check)
+pub fn log_hash() -> u64 {
+    with(|s| {
+        let mut h: u64 = 0xcbf2_9ce4_8422_2325;
+        let mut w = |b: &[u8]| {
+            for x in b {
+                h ^= *x as u64;
+                h = h.wrapping_mul(0x0000_0100_0000_01B3);
+            }
+        };
+        for e in &s.log {
+            match e {
+                Ev::Open { fid, create } => w(&[1, *fid as u8, *create as u8]),
+                Ev::Extend { fid, len } => {
+                    w(&[2, *fid as u8]);
+                    w(&len.to_le_bytes())
+                }
+                Ev::Write { fid, off, data } => {
+                    // offset, length and the page header of every write. Not the whole buffer:
+                    // jammdb serialises pages into arena memory it does not zero, so the
+                    // padding after the last element is whatever the allocator held.
+                    w(&[3, *fid as u8]);
+                    w(&off.to_le_bytes());
+                    w(&(data.len() as u64).to_le_bytes());
+                    // id and type, then count and overflow; bytes 9..16 are struct padding
+                    // (uninitialised: they hold stray heap bytes that differ per process)
+                    w(&data[..data.len().min(9)]);
+                    if data.len() >= 32 {
+                        w(&data[16..32]);
+                    }
+                }
+                Ev::Sync { fid } => w(&[4, *fid as u8]),
+                Ev::Map { fid, len } => {
+                    w(&[5, *fid as u8]);
+                    w(&len.to_le_bytes())
+                }
+                Ev::Lock { fid, op } => w(&[6, *fid as u8, *op as u8]),
+                Ev::Close { fid } => w(&[7, *fid as u8]),
+                Ev::Mark(_) => w(&[8]),
+            }
+        }
+        h
+    })
+}
+
 pub fn take_log() -> Vec<Ev> {
     with(|s| std::mem::take(&mut s.log))
 }
